@@ -107,6 +107,25 @@ def analyse_create(F):
             if r_ and r_ not in byname:
                 byname[r_] = lid
         plists = {name: lid for lid, name in pushed.items()}
+        # round lists that are extended through a helper (`record_round(&mut L_vec, &mut R_vec, ..)`): locals mentioned in
+        # the body that hold a (possibly conditional) vector of points and play none of the state roles
+        names_in_body = {}
+        for n_ in FX.walk(body):
+            if n_["k"] == "Path" and n_["res"].get("k") == "Local" and n_["res"].get("id") in env:
+                names_in_body[n_["res"]["id"]] = n_["res"].get("name")
+
+        def is_point_list(v):
+            v = I_.deref(v)
+            if isinstance(v, _Ite):
+                return is_point_list(v.a) or is_point_list(v.b)
+            if isinstance(v, Vec):
+                segs_ = v.nonempty_segs()
+                return not segs_ and False or (bool(segs_) and isinstance(segs_[0].f(isym("_j")), Pt) and not eq(v.length(), 2 * h))
+            return False
+
+        for lid_, nm_ in names_in_body.items():
+            if lid_ not in byname.values() and nm_ not in plists and not isinstance(env[lid_], type(None)) and is_point_list(env[lid_]):
+                plists[nm_] = lid_
         pre = {r_: I_.deref(env[lid]) for r_, lid in byname.items()}
         pre.update({("list:" + name): I_.deref(env[lid]) for name, lid in plists.items()})
         info["pre_while"] = pre
